@@ -467,8 +467,7 @@ theorem releaseAbsorbedKeysIdx_eq (s : State) : releaseAbsorbedKeysIdx s = some 
 theorem addPhase2Idx_eq (s : State) (newKey : Key) (m : Mapping) :
     addPhase2Idx s newKey m = some (addPhase2 s newKey m) := by
   unfold addPhase2Idx addPhase2
-  rw [isActionMappingIdx_eq]
-  cases isActionMapping m with
+  cases producesActionKey m with
   | false => rfl
   | true =>
     simp only [if_true]
